@@ -3,7 +3,7 @@
  - creates a scratch worktree of /repo (HEAD) under /tmp, confirms demo.py passes there, applies the patch, confirms demo.py fails and the test suite result is unchanged,
  - runs ./check <PROP> with PAMS_REPO=<scratch> for each property, records what was reported, removes the worktree."""
 import json, os, shutil, subprocess, sys, tempfile, time
-sid, srcdir, props = sys.argv[1], sys.argv[2], sys.argv[3:]
+sid, srcdir, props = sys.argv[1], os.path.abspath(sys.argv[2]), sys.argv[3:]
 V = "/verif"
 wt = tempfile.mkdtemp(prefix="pams_seed_")
 os.rmdir(wt)
